@@ -45,6 +45,23 @@ fn below() -> &'static Vec<u32> {
     })
 }
 
+static CLASS_INDEX: OnceLock<Vec<usize>> = OnceLock::new();
+/// index (0..309) of the class of value v in strength order, from the oracle's generated class texts
+fn class_index(v: u16) -> usize {
+    CLASS_INDEX.get_or_init(|| {
+        let o = oracle();
+        let mut idx = vec![usize::MAX; 7463];
+        let mut cur = 0usize;
+        for x in 1..=7462u16 {
+            if x > 1 && class_text(o.key_of_ord(x).unwrap()) != class_text(o.key_of_ord(x - 1).unwrap()) {
+                cur += 1;
+            }
+            idx[x as usize] = cur;
+        }
+        idx
+    })[v as usize]
+}
+
 fn valid(v: u16) -> bool {
     (1..=7462).contains(&v)
 }
@@ -129,6 +146,40 @@ pub fn judge(case: &Case) -> Verdict {
             }
             if cc != ec {
                 return Verdict::Violated { class: "class-enum-order".into(), expected: format!("class({}) {:?} class({}) (strongest first, strict exactly at a class change: {} -> {})", v, ec, v + 1, class_text(k1), class_text(k2)), observed: format!("{:?}", cc) };
+            }
+            Verdict::Holds
+        }
+        "enum-pair" => {
+            // derived order of the category / class enumerations on ANY two values (0 and 7463 stand for Invalid)
+            if case.words.len() != 2 || case.words.iter().any(|w| *w > 7463) {
+                return Verdict::NotJudged("two values in 0..=7463".into());
+            }
+            let (v, w) = (case.words[0] as u16, case.words[1] as u16);
+            let o = oracle();
+            // position of the class / category in strength order, Invalid last
+            let pos = |x: u16| -> (usize, usize) {
+                match o.key_of_ord(x) {
+                    Some(k) => (crate::oracle::poker::key_cat(k) as usize, class_index(x)),
+                    None => (9, usize::MAX),
+                }
+            };
+            let (pv, pw) = (pos(v), pos(w));
+            let r = guard(|| {
+                let (a, b) = (HandRank::from(v), HandRank::from(w));
+                (a.name.cmp(&b.name), a.name.partial_cmp(&b.name), a.name < b.name, a.name <= b.name, a.name > b.name, a.name >= b.name, a.name == b.name, a.class.cmp(&b.class), a.class.partial_cmp(&b.class), a.class < b.class, a.class <= b.class, a.class > b.class, a.class >= b.class, a.class == b.class)
+            });
+            let t = match r {
+                Err(p) => return Verdict::Violated { class: "panic:enum-pair".into(), expected: "orderings".into(), observed: format!("panic: {}", p) },
+                Ok(t) => t,
+            };
+            let en = pv.0.cmp(&pw.0);
+            let ec = pv.1.cmp(&pw.1);
+            let consistent = |c: Ordering, pc: Option<Ordering>, lt: bool, le: bool, gt: bool, ge: bool, eq: bool| pc == Some(c) && lt == (c == Ordering::Less) && le == (c != Ordering::Greater) && gt == (c == Ordering::Greater) && ge == (c != Ordering::Less) && eq == (c == Ordering::Equal);
+            if t.0 != en || !consistent(t.0, t.1, t.2, t.3, t.4, t.5, t.6) {
+                return Verdict::Violated { class: "category-enum-order:any-pair".into(), expected: format!("name({}) {:?} name({}) with cmp, partial_cmp and the operators agreeing (strongest first, Invalid last)", v, en, w), observed: format!("cmp {:?} partial_cmp {:?} < {} <= {} > {} >= {} == {}", t.0, t.1, t.2, t.3, t.4, t.5, t.6) };
+            }
+            if t.7 != ec || !consistent(t.7, t.8, t.9, t.10, t.11, t.12, t.13) {
+                return Verdict::Violated { class: "class-enum-order:any-pair".into(), expected: format!("class({}) {:?} class({}) with cmp, partial_cmp and the operators agreeing (strongest first, Invalid last)", v, ec, w), observed: format!("cmp {:?} partial_cmp {:?} < {} <= {} > {} >= {} == {}", t.7, t.8, t.9, t.10, t.11, t.12, t.13) };
             }
             Verdict::Holds
         }
@@ -265,6 +316,57 @@ pub fn run(_ctx: &Ctx, rep: &mut Report) {
         if let Some(x) = confirm(judge, Case::new("invalid-greatest", &[v])) {
             acc.violate(x);
         }
+    }
+    // all pairs of values for the derived enum orders (a hand-written, non-transitive comparator passes adjacent pairs)
+    {
+        let t0 = Instant::now();
+        let kind = monitor::kind_id("enum-pair");
+        let accs = par_parts(7464, |v| {
+            let mut acc = Acc::new(1);
+            monitor::beat(kind, &[v as u64, 0]);
+            let a = HandRank::from(v as u16);
+            let pv = if valid(v as u16) { class_index(v as u16) } else { usize::MAX };
+            let cat_of = |x: u16| -> u8 { oracle().key_of_ord(x).map(crate::oracle::poker::key_cat).unwrap_or(9) };
+            let cv = cat_of(v as u16);
+            let r = guard(|| {
+                let mut bad = Vec::new();
+                for w in 0..=7463u16 {
+                    let b = HandRank::from(w);
+                    let pw = if valid(w) { class_index(w) } else { usize::MAX };
+                    let ec = pv.cmp(&pw);
+                    let c = a.class.cmp(&b.class);
+                    let n = a.name.cmp(&b.name);
+                    let ok = c == ec && a.class.partial_cmp(&b.class) == Some(c) && (a.class < b.class) == (c == Ordering::Less) && (a.class > b.class) == (c == Ordering::Greater) && (a.class == b.class) == (c == Ordering::Equal)
+                        && n == cv.cmp(&cat_of(w)) && a.name.partial_cmp(&b.name) == Some(n) && (a.name < b.name) == (n == Ordering::Less) && (a.name > b.name) == (n == Ordering::Greater);
+                    if !ok && bad.len() < 2 {
+                        bad.push(w);
+                    }
+                }
+                bad
+            });
+            acc.cases += 7464;
+            acc.calls += 7464 * 6;
+            acc.nontrivial += 7464;
+            match r {
+                Ok(bad) if bad.is_empty() => {}
+                Ok(bad) => {
+                    for w in bad {
+                        match confirm(judge, Case::new("enum-pair", &[v as u64, w as u64])) {
+                            Some(x) => acc.violate(x),
+                            None => super::unreproduced("C07 enum-pair mismatch not reproduced"),
+                        }
+                    }
+                }
+                Err(_) => {
+                    if let Some(x) = confirm(judge, Case::new("enum-pair", &[v as u64, 0])) {
+                        acc.violate(x);
+                    }
+                }
+            }
+            acc
+        });
+        let acc2 = Acc::merged(accs);
+        rep.add_space("all 7,464 x 7,464 value pairs: derived order of the class and category enumerations (cmp, partial_cmp, operators)", &acc2, t0, "consistent with strength for ANY two classes, not only adjacent ones");
     }
     rep.hist_add("adjacent_pairs_where_category_changes", strict_name);
     rep.hist_add("adjacent_pairs_where_class_changes", strict_class);
